@@ -127,6 +127,9 @@ def build_shape(g, d, clockwise=None):
         n = 3 if d["zgiven"] else 2
         dz = d["dz"] if d["zgiven"] else 0.0
         T = (c[0] + r * math.cos(a1), c[1] + r * math.sin(a1), p[2] + dz)
+        if d.get("full"):      # target at the start angle: a full turn
+            T = (p[0], p[1], p[2] + dz)
+            d = dict(d, sweep=2 * math.pi)
         return ("arc", [_to_mode(g, p, T, n), (c[0] - p[0], c[1] - p[1])], {},
                 {"kind": "arc", "c": c, "r": r, "a0": a0, "sweep": sgn * d["sweep"],
                  "z0": p[2], "dz": dz, "target": T, "start": p})
@@ -172,6 +175,9 @@ def build_shape(g, d, clockwise=None):
         dz = d["dz"] if d["zgiven"] else 0.0
         r1 = d["r1"]
         T = (c[0] + r1 * math.cos(a1), c[1] + r1 * math.sin(a1), p[2] + dz)
+        if d.get("full"):      # target at the start angle: whole turns only
+            T = (c[0] + (r1 / r) * (p[0] - c[0]), c[1] + (r1 / r) * (p[1] - c[1]), p[2] + dz)
+            d = dict(d, sweep=2 * math.pi)
         total = sgn * (d["sweep"] + 2 * math.pi * (d["turns"] - 1))
         return ("helix", [_to_mode(g, p, T, n), (c[0] - p[0], c[1] - p[1]), d["turns"]], {},
                 {"kind": "helix", "c": c, "r0": r, "r1": r1, "a0": a0,
